@@ -15,7 +15,7 @@ func init() { register("C03", checkC03) }
 // rewriting call the independent reader must find the model's entry list:
 // same ids, same order, same bodies (one appended at the end, or one replaced).
 func checkC03(c *vkit.Ctx) {
-	c.P.Rule = "case = generated history (confusable names incl. prefixes and nested subtests, 0-14 calls per test, 1-3 executions per test, calls that fail midway through invalid documents / failing matchers / mismatches without update, sequential or call-interleaved, bodies containing other slots' header lines) run as 3 simulated processes: record, then two runs in which a random subset of calls changes value with Update(false|true|unset) under a random mode; in every 5th history one call in five runs while writes fail (RLIMIT_FSIZE 0 or 1-300 bytes: EFBIG after a successful open): a call whose write failed must report a failure (the model then adopts what it left on disk), any other answer and every later call are judged as always; lockstep slot model on outcomes + independent reader on the file after every mutating call; non-trivial = >=2 tests share a file and the history has a prefix-related name pair, >=10 ordinals, a failing call followed by another call, a repeated execution or an addressed-header body line; distinct by hash of history"
+	c.P.Rule = "case = generated history (confusable names incl. prefixes and nested subtests, 0-14 calls per test, 1-3 executions per test, calls that fail midway through invalid documents / failing matchers / mismatches without update, sequential or call-interleaved, bodies containing other slots' header lines) run as 3 simulated processes: record, then two runs in which a random subset of calls changes value with Update(false|true|unset) under a random mode; in every 5th history one call in five runs while writes fail (RLIMIT_FSIZE 0 or 1-300 bytes: EFBIG after a successful open): a call whose write failed must report a failure (the model then adopts what it left on disk), any other answer and every later call are judged as always; every 6th history changes one letter inside a stored entry in place between two calls (same inode, size and mtime); every 7th calls a report-only Clean between two calls of running tests (nothing may change, the slots of later calls stay); a quarter of the sessions have a snapshot directory that does not exist yet (a new directory is a write); some tests make Match* calls from a t.Cleanup callback registered part-way; byte inputs carry spare capacity that is checked after the call; lockstep slot model on outcomes + independent reader on the file after every mutating call; non-trivial = >=2 tests share a file and the history has a prefix-related name pair, >=10 ordinals, a failing call followed by another call, a repeated execution or an addressed-header body line; distinct by hash of history"
 	c.P.Assumptions = []string{"VerifResetProcessState simulates a new process", "the same test name is never live twice at once (the real runner runs -count executions one after the other)"}
 	n := c.N(10000, 300000)
 	for i := 0; i < n; i++ {
